@@ -286,6 +286,15 @@ func (e *Exec) libModel(st *State, callee *ssa.Function, cc *ssa.CallCommon, arg
 		e.store(st, args[0], nv)
 		set(Val{T: tBool, S: ok})
 		return true, true, nil
+	case "sort.Sort", "sort.Stable":
+		// the elements of the sorted slice are permuted (what order results is not modelled).
+		// Which slice: the boxed slice itself, or the one named by `sorts <expr>` in the contract
+		// of the receiver type's Swap method.
+		if sl, et, ok := e.sortedSlice(st, cc, args); ok {
+			used()
+			e.permuteSlice(st, sl, et)
+			return true, true, nil
+		}
 	case "sort.Search":
 		// binary search over [0,n): some index in [0,n]; the predicate closure is assumed to
 		// read only (true of the ring lookups that use it). Which index is not modelled.
@@ -293,6 +302,17 @@ func (e *Exec) libModel(st *State, callee *ssa.Function, cc *ssa.CallCommon, arg
 		r := e.sc.fresh("search", e.sc.idx())
 		z := e.sc.idxLit(0)
 		e.assume(st, and(e.le(z, r), or(e.le(r, args[0].S), and(e.lt(args[0].S, z), eq(r, z)))))
+		// what binary search guarantees for any predicate: the predicate holds at the result
+		// (unless the result is n) and fails just before it (unless the result is 0)
+		rv := Val{T: tInt, S: r}
+		if t1, ok := e.closureBool(st, args[1], rv, e.lt(r, args[0].S)); ok {
+			e.assume(st, imp(e.lt(r, args[0].S), t1))
+			one := e.sc.idxLit(1)
+			rm := Val{T: tInt, S: e.sc.define("searchm1", e.sc.idx(), e.sub(r, one))}
+			if t2, ok := e.closureBool(st, args[1], rm, and(e.lt(z, r), e.le(r, args[0].S))); ok {
+				e.assume(st, imp(and(e.lt(z, r), e.le(r, args[0].S)), not(t2)))
+			}
+		}
 		set(Val{T: resT, S: r})
 		return true, true, nil
 	case "(*sync/atomic.Value).Load", "(*sync/atomic.Value).Store":
@@ -512,4 +532,75 @@ func (e *Exec) fieldAddrOf(st *State, p Val, stt types.Type, field int, pos toke
 	e.checkNonNil(st, p.S, "field", pos)
 	k, _ := e.heapKey(stt, field)
 	return Val{T: types.NewPointer(ft), A: &Addr{Kind: AHeap, Key: k, Ref: p.S, Root: ft, T: ft}}
+}
+
+func (e *Exec) sortedSlice(st *State, cc *ssa.CallCommon, args []Val) (string, types.Type, bool) {
+	mi, ok := cc.Args[0].(*ssa.MakeInterface)
+	if !ok {
+		return "", nil, false
+	}
+	xt := mi.X.Type()
+	xv := e.val(st, mi.X)
+	if u, ok := xt.Underlying().(*types.Slice); ok && xv.S != "" {
+		return xv.S, u.Elem(), true
+	}
+	// pointer receiver with a Swap method under contract: `sorts recv.field`
+	ms := e.eng.prog.MethodSets.MethodSet(xt)
+	for i := 0; i < ms.Len(); i++ {
+		if ms.At(i).Obj().Name() != "Swap" {
+			continue
+		}
+		f := e.eng.prog.MethodValue(ms.At(i))
+		if f == nil {
+			continue
+		}
+		fc := e.eng.contractFor(f)
+		if fc == nil {
+			continue
+		}
+		expr, ok := fc.Flags["sorts"]
+		if !ok || len(f.Params) == 0 {
+			continue
+		}
+		c := e.specEnv(st, nil)
+		c.vars = map[string]Val{f.Params[0].Name(): xv}
+		v, err := c.evalExpr(strings.TrimSpace(expr))
+		if err != nil {
+			e.note("sorts clause of %s: %v", f.String(), err)
+			return "", nil, false
+		}
+		if u, ok := v.T.Underlying().(*types.Slice); ok {
+			return v.S, u.Elem(), true
+		}
+	}
+	return "", nil, false
+}
+
+func (e *Exec) permuteSlice(st *State, sl string, et types.Type) {
+	k, srt := e.elemKey(et)
+	m := e.memGet(st, k, srt)
+	idx := e.sc.idx()
+	es := e.sc.sortOf(et)
+	e.sc.n++
+	n := e.sc.n
+	perm, pinv := fmt.Sprintf("perm!%d", n), fmt.Sprintf("pinv!%d", n)
+	e.sc.emit(fmt.Sprintf("(declare-fun %s (%s) %s)", perm, idx, idx))
+	e.sc.emit(fmt.Sprintf("(declare-fun %s (%s) %s)", pinv, idx, idx))
+	e.sc.permFuns = append(e.sc.permFuns, perm)
+	oldArr := e.sc.define("sortold", fmt.Sprintf("(Array %s %s)", idx, es), fmt.Sprintf("(select %s (s-base %s))", m, sl))
+	newArr := e.sc.fresh("sortnew", fmt.Sprintf("(Array %s %s)", idx, es))
+	off, ln := "(s-off "+sl+")", "(s-len "+sl+")"
+	z := e.sc.idxLit(0)
+	qv := fmt.Sprintf("q.sort.%d", n)
+	inr := func(t string) string { return and(e.le(z, t), e.lt(t, ln)) }
+	e.assume(st, fmt.Sprintf("(forall ((%s %s)) (=> %s (and %s (= (select %s %s) (select %s %s)))))", qv, idx, inr(qv),
+		inr("("+perm+" "+qv+")"), newArr, e.add(off, qv), oldArr, e.add(off, "("+perm+" "+qv+")")))
+	qw := fmt.Sprintf("q.sorti.%d", n)
+	e.assume(st, fmt.Sprintf("(forall ((%s %s)) (=> %s (and %s (= (select %s %s) (select %s %s)))))", qw, idx, inr(qw),
+		inr("("+pinv+" "+qw+")"), newArr, e.add(off, "("+pinv+" "+qw+")"), oldArr, e.add(off, qw)))
+	qo := fmt.Sprintf("q.sorto.%d", n)
+	e.assume(st, fmt.Sprintf("(forall ((%s %s)) (=> (not %s) (= (select %s %s) (select %s %s))))", qo, idx,
+		and(e.le(off, qo), e.lt(qo, e.add(off, ln))), newArr, qo, oldArr, qo))
+	m = e.memGet(st, k, srt)
+	e.memSet(st, k, srt, fmt.Sprintf("(store %s (s-base %s) %s)", m, sl, newArr))
 }
